@@ -938,13 +938,26 @@ Proof.
   change (2 ^ 28) with 268435456. change (2 ^ 32) with 4294967296 in *. change (2 ^ 26) with 67108864 in *. lia.
 Qed.
 
-(* the two guarded successors of a conditional branch *)
+(* the two guarded successors of a conditional branch, after merge_successors: when target and
+   fall-through coincide they are one successor guarded by `bc | (bc == 0)`, which always holds *)
+Lemma merge_one x : merge_succs [x] = [x].
+Proof. destruct x. reflexivity. Qed.
+
 Lemma two_succs en t f cv n : env_get en kbc = Some (mkc 1 cv) -> bit01 cv -> not1 bc_expr = Ok n ->
-  enabled_succs en [(t, Some bc_expr); (f, Some n)] = Ok [if cv =? 1 then t else f].
+  enabled_succs en (merge_succs [(t, Some bc_expr); (f, Some n)]) = Ok [if cv =? 1 then t else f].
 Proof.
   intros H Hb Hn. unfold not1 in Hn. rewrite mk_bin_ok in Hn by reflexivity. inversion Hn; subst n.
-  cbn [enabled_succs guard_on]. rewrite (den_not1 en bc_expr cv) by (apply den_bc; assumption).
-  rewrite (den_bc en cv H). destruct Hb as [-> | ->]; reflexivity.
+  pose proof (den_bc en cv H) as Dbc.
+  pose proof (den_not1 en bc_expr cv Dbc) as Dn.
+  unfold merge_succs. cbn [fold_left merge_into fst snd].
+  destruct (Z.eqb_spec t f) as [->|Ntf].
+  - (* same address: one successor, guard bc | (bc == 0) *)
+    rewrite mk_bin_ok by reflexivity.
+    cbn [enabled_succs guard_on].
+    erewrite den_bin by eassumption. cbn [sp_bin bind cbits cval].
+    destruct Hb as [-> | ->]; cbn [Z.eqb Pos.eqb negb]; reflexivity.
+  - cbn [enabled_succs guard_on]. rewrite Dn, Dbc.
+    destruct Hb as [-> | ->]; reflexivity.
 Qed.
 
 Lemma okc_some o g : okc o = Some g -> o = Some (Ok g).
@@ -965,7 +978,7 @@ Lemma cond_branch_case bg sl a ts s st sg e (taken : bool) off n :
               | MOk s2 uh ul => MOk (set_pc s2 (if taken then btarget s off else a32 (pc s + 8))) uh ul
               | r => r end) st
     (run_block [single (Some a) [OAssign bc_scalar e]; sg; single (Some (a + 1)) []]
-               [(cs_btarget a off, Some bc_expr); (a + 8, Some n)] st).
+               (merge_succs [(cs_btarget a off, Some bc_expr); (a + 8, Some n)]) st).
 Proof.
   intros Hpl Hl Hts Hw Hb He Hp Ha0 Ha Ho De Hn.
   set (cv := if taken then 1 else 0) in *.
@@ -975,6 +988,9 @@ Proof.
   - intros s2 uh ul st2 _ He2 Hfr. exists st2. split; [|assumption].
     rewrite run_block_cons, run_empty. unfold run_block. cbn [run_seq].
     unfold set_env in Hfr. cbn [st_env] in Hfr. rewrite env_get_set_same in Hfr.
+    assert (Hne : merge_succs [(cs_btarget a off, Some bc_expr); (a + 8, Some n)] <> []).
+    { unfold merge_succs. cbn [fold_left merge_into fst snd]. destruct (cs_btarget a off =? a + 8); discriminate. }
+    destruct (merge_succs [(cs_btarget a off, Some bc_expr); (a + 8, Some n)]) as [|s0 sr] eqn:Em; [congruence|]. rewrite <- Em.
     erewrite two_succs; [|eassumption|subst cv; destruct taken; [right|left]; reflexivity|assumption].
     rewrite (cs_btarget_eq s a off Hp Ho), Hp, a32_small by lia.
     subst cv. destruct taken; reflexivity.
@@ -985,12 +1001,12 @@ Lemma uncond_branch_case bg sl a ts s st sg tgt :
   plain_correct bg sl -> lift_plain bg sl (a + 4) ts = Some (Ok sg) -> temps_ok ts ->
   wf_m s -> big s = bg -> emb s st ->
   block_post (match exec1 sl s with MOk s2 uh ul => MOk (set_pc s2 tgt) uh ul | r => r end) st
-    (run_block [single (Some a) [ONop None]; sg; single (Some (a + 1)) []] [(tgt, None)] st).
+    (run_block [single (Some a) [ONop None]; sg; single (Some (a + 1)) []] (merge_succs [(tgt, None)]) st).
 Proof.
   intros Hpl Hl Hts Hw Hb He.
   eapply (branch_core bg sl a ts s st st); try eassumption.
   - apply run_nop_graph.
-  - intros s2 uh ul st2 _ He2 _. exists st2. split; [apply run_block_succ1|assumption].
+  - intros s2 uh ul st2 _ He2 _. exists st2. split; [rewrite merge_one; apply run_block_succ1|assumption].
 Qed.
 
 Lemma link_graph_run s st a rd : emb s st -> reg_ok rd -> pc s = a -> 0 <= a -> a + 8 < 2 ^ 32 ->
@@ -1013,7 +1029,7 @@ Definition branch_correct (bg : bool) (b : minstr) : Prop :=
   is_control sl = false -> plain_correct bg sl -> branch_ok a b -> target_stable b sl s ->
   wf_m s -> big s = bg -> pc s = a -> 0 <= a -> a + 8 < 2 ^ 32 -> emb s st -> temps_ok ts ->
   match okc (pre_graph b a), okc (lift_plain bg sl (a + 4) ts), okc (post_graph b a) with
-  | Some p, Some sg, Some q => block_post (mstep2 b sl s) st (run_block [p; sg; q] (succs_of b a) st)
+  | Some p, Some sg, Some q => block_post (mstep2 b sl s) st (run_block [p; sg; q] (merge_succs (succs_of b a)) st)
   | _, _, _ => True
   end.
 
@@ -1274,27 +1290,20 @@ Definition fields_ok (i : minstr) : Prop :=
   | _ => True
   end.
 
-Definition proved_plain (i : minstr) : bool :=
-  match i with
-  | MAlu3 _ _ _ _ | MShi _ _ _ _ | MShv _ _ _ _ | MAluI _ _ _ _ | MLui _ _
-  | MMfhi _ | MMflo _ | MMthi _ | MMtlo _ | MTeq _ _ _ | MBreak _ | MSyscall _ | MSync _ | MPref _ _ _ => true
-  | _ => false
-  end.
-
 Theorem proved_plain_correct bg i : proved_plain i = true -> fields_ok i -> plain_correct bg i.
 Proof.
   intros Hp Hf. destruct i; try discriminate Hp; cbn [fields_ok] in Hf.
   - destruct Hf as (Hd & Hs & Ht).
     destruct o; first [apply alu3_simple_correct; [reflexivity|assumption..]
-                      |apply add_sub_correct; [auto|assumption..]
-                      |apply slt_correct; [auto|assumption..]
-                      |apply movc_correct; [auto|assumption..]].
+                      |apply add_sub_correct; [solve [auto]|assumption..]
+                      |apply slt_correct; [solve [auto]|assumption..]
+                      |apply movc_correct; [solve [auto]|assumption..]].
   - destruct Hf as (Hd & Ht & Hs). apply shi_correct; assumption.
   - destruct Hf as (Hd & Ht & Hs). apply shv_correct; assumption.
   - destruct Hf as (Ht & Hs & Hi). unfold imm16_ok in Hi.
     destruct o; first [apply addi_correct; assumption
                       |apply alui_simple_correct; [reflexivity|assumption..]
-                      |apply slti_correct; [auto|assumption..]].
+                      |apply slti_correct; [solve [auto]|assumption..]].
   - destruct Hf as (Ht & Hi). apply lui_correct; assumption.
   - apply mfhi_correct; assumption.
   - apply mflo_correct; assumption.
@@ -1314,21 +1323,14 @@ Proof.
   - apply br2_correct. - apply brz_correct. - apply brzal_correct.
 Qed.
 
-(* executable side conditions, checked for every enumerated encoding by the tie *)
-Definition regb (r : Z) : bool := (0 <=? r) && (r <=? 31).
-Definition fields_okb (i : minstr) : bool :=
-  match i with
-  | MAlu3 _ rd rs rt => regb rd && regb rs && regb rt
-  | MShi _ rd rt sa => regb rd && regb rt && (0 <=? sa) && (sa <? 32)
-  | MShv _ rd rt rs => regb rd && regb rt && regb rs
-  | MAluI _ rt rs imm => regb rt && regb rs && (0 <=? imm) && (imm <? 2 ^ 16)
-  | MLui rt imm => regb rt && (0 <=? imm) && (imm <? 2 ^ 16)
-  | MMfhi r | MMflo r | MMthi r | MMtlo r => regb r
-  | MTeq rs rt _ => regb rs && regb rt
-  | _ => true
-  end.
 Lemma fields_okb_ok i : fields_okb i = true -> fields_ok i.
 Proof.
   unfold fields_okb, fields_ok, regb, reg_ok, imm16_ok. destruct i; intros H; try exact I;
+    repeat (apply andb_true_iff in H; destruct H as [H ?]); repeat split; lia.
+Qed.
+
+Lemma branch_okb_ok a b : branch_okb a b = true -> branch_ok a b.
+Proof.
+  unfold branch_okb, branch_ok, off_okb, off_ok, regb, reg_ok. destruct b; intros H; try exact I;
     repeat (apply andb_true_iff in H; destruct H as [H ?]); repeat split; lia.
 Qed.
